@@ -20,7 +20,7 @@ func init() {
 		ID: "C12",
 		Rule: "per generated document (namespaces, PIs, comments, xml:lang on self/ancestors/nowhere with tags from {2-3 letter primary, script, region, variant, private use, empty, mixed case}): local-name/namespace-uri/name with no argument from every context node of every kind and with arguments that are empty, singleton, multi-node (reverse-axis results, unions, reverse-ordered variables); count() on node-sets and on the three other types (must be an error); lang(L) from every node of every kind with L from {equal, prefix at a subtag boundary, prefix inside a subtag, longer, other case, unrelated, empty}; " +
 			"oracle = reference model; relation name(x) = local-name(x) iff namespace-uri(x) = ''. distinct_nontrivial = distinct (function, context/argument kind, result) triples",
-		NCases: func(tier string) int { return map[string]int{"quick": 200, "thorough": 8000}[tier] },
+		NCases: func(tier string) int { return map[string]int{"quick": 3000, "thorough": 120000}[tier] },
 		Case:   c12Case,
 	})
 }
